@@ -7,11 +7,11 @@ w=$(mktemp -d /tmp/conf-XXXXXX); rmdir $w
 git -C /repo worktree add -q --detach $w main || exit 3
 cp $src/demo$n.py $w/demo.py
 cd $w
-/venv/bin/python demo.py >/tmp/conf-demo0.log 2>&1; d0=$?
+/venv/bin/python demo.py >$w.demo0.log 2>&1; d0=$?
 git apply --whitespace=nowarn $src/patch$n.diff || { echo "patch does not apply"; cd /; git -C /repo worktree remove --force $w; exit 3; }
-/venv/bin/python demo.py >/tmp/conf-demo1.log 2>&1; d1=$?
-timeout -k 10 1500 /venv/bin/python -m pytest $tests -q -p no:cacheprovider --timeout=900 -q --deselect tests/core/test_signals.py --deselect tests/io/test_process.py::test2 --deselect "tests/net/test_tcp.py::test_tcp_lookup_failure" > /tmp/conf-tests.log 2>&1; t=$?
-tsum=$(tail -1 /tmp/conf-tests.log)
+/venv/bin/python demo.py >$w.demo1.log 2>&1; d1=$?
+timeout -k 10 1500 /venv/bin/python -m pytest $tests -q -p no:cacheprovider --timeout=900 -q --deselect tests/core/test_signals.py --deselect tests/io/test_process.py::test2 --deselect "tests/net/test_tcp.py::test_tcp_lookup_failure" > $w.tests.log 2>&1; t=$?
+tsum=$(tail -1 $w.tests.log)
 cd /verif
 chk=$(VERIF_REPO=$w VERIF_OUT=$w/out ./check $id 2>&1 | grep -E "^violated clause|rc=" | head -2 | cut -c1-200 | tr '\n' ' ')
 VERIF_REPO=$w VERIF_OUT=$w/out ./check $id >/dev/null 2>&1; rc=$?
@@ -25,4 +25,4 @@ if [ $d0 = 0 ] && [ $d1 != 0 ] && [ $t = 0 ]; then
  "check_quick_exit_with_patch": $rc}
 EOM
 fi
-git -C /repo worktree remove --force $w
+git -C /repo worktree remove --force $w; rm -f $w.demo0.log $w.demo1.log $w.tests.log
